@@ -283,6 +283,24 @@ func coherent(v *Verdict, pub, priv []byte, act string) bool {
 	pub[0] ^= 0xff
 	same := bytes.Equal(before, priv)
 	pub[0] ^= 0xff
+	// ... nor may the spare capacity behind one result be the other result
+	// (an append to the public key would then overwrite the private key)
+	for _, pair := range [][2][]byte{{pub, priv}, {priv, pub}} {
+		a, b := pair[0], pair[1]
+		if cap(a) > len(a) {
+			full := a[:cap(a)]
+			keep := append([]byte{}, b...)
+			for i := len(a); i < len(full); i++ {
+				full[i] ^= 0x3c
+			}
+			if !bytes.Equal(keep, b) {
+				same = false
+			}
+			for i := len(a); i < len(full); i++ {
+				full[i] ^= 0x3c
+			}
+		}
+	}
 	if !same {
 		v.fail("genkey-alias", "returned public key is a fresh copy", act, "GenerateKey's public key aliases the private key")
 		return false
@@ -371,6 +389,23 @@ func checkAccessors(c *Case, v *Verdict) {
 				}
 			}
 		case 6:
+			// an unset key of this package equals nothing of another type
+			for _, f := range []interface{}{nil, []byte(nil), []byte{}, stded.PublicKey(nil), stded.PrivateKey(nil), "", 0, ed25519.PrivateKey(nil)} {
+				if ed25519.PublicKey(nil).Equal(f) || (ed25519.PublicKey{}).Equal(f) {
+					fail("equal-unset-foreign", "false", "true", fmt.Sprintf("an unset PublicKey equals a value of type %T", f))
+					return
+				}
+			}
+			for _, f := range []interface{}{nil, []byte(nil), []byte{}, stded.PublicKey(nil), stded.PrivateKey(nil), "", 0, ed25519.PublicKey(nil)} {
+				if ed25519.PrivateKey(nil).Equal(f) || (ed25519.PrivateKey{}).Equal(f) {
+					fail("equal-unset-foreign", "false", "true", fmt.Sprintf("an unset PrivateKey equals a value of type %T", f))
+					return
+				}
+			}
+			if !ed25519.PublicKey(nil).Equal(ed25519.PublicKey{}) || !ed25519.PrivateKey(nil).Equal(ed25519.PrivateKey{}) {
+				fail("equal-unset-same", "true", "false", "two empty keys of the same type are byte-identical but not Equal")
+				return
+			}
 			cp := append([]byte{}, k...)
 			foreign := []interface{}{stded.PrivateKey(cp), stded.PublicKey(cp[32:]), cp, &cp, nil, string(cp), [64]byte{}, ed25519.PublicKey(cp[32:]), ed25519.PublicKey(cp)}
 			for _, f := range foreign {
